@@ -17,19 +17,21 @@
 //! simulator provide the underlay and obtain the real [`PathUnawareUdpScionSocket`] with the
 //! SCMP handlers the stack installs.
 
-use std::{future::Future, io, pin::Pin, sync::Arc};
+use std::{future::Future, io, pin::Pin, sync::Arc, time::Duration};
 
 use async_trait::async_trait;
 use sciparse::{address::ip_socket_addr::ScionSocketIpAddr, packet::view::ScionRawPacketView};
 
 use crate::{
     internal::Subscribers,
+    path::manager::traits::PathManager,
     stack::{
         BoundUnderlaySocket, PathUnawareUdpScionSocket, ScionSocketReceiveError,
-        ScionSocketSendError, UnderlaySocket,
+        ScionSocketSendError, UdpScionSocket, UnderlaySocket,
         scmp_handler::{DefaultEchoHandler, ScmpErrorReceiver, ScmpHandler, error::ScmpErrorHandler},
+        socket::SendErrorReceiver,
     },
-    sciparse::core::view::View,
+    sciparse::{core::view::View, dataplane_path::view::ScionDpPathViewExt},
 };
 
 /// A simulated underlay: datagram-wise, non-blocking, with readiness notifications.
@@ -53,6 +55,19 @@ impl UnderlaySocket for Adapter {
             match kind {
                 io::ErrorKind::NotConnected | io::ErrorKind::BrokenPipe => {
                     ScionSocketSendError::Closed
+                }
+                // as the UDP underlay reports an unreachable border router
+                io::ErrorKind::HostUnreachable | io::ErrorKind::NetworkUnreachable => {
+                    ScionSocketSendError::UnderlayNextHopUnreachable {
+                        isd_as: packet.header().src_ia(),
+                        interface_id: packet
+                            .header()
+                            .path()
+                            .first_egress_interface()
+                            .unwrap_or(0),
+                        address: None,
+                        msg: "simulated underlay: next hop unreachable".to_string(),
+                    }
                 }
                 kind => ScionSocketSendError::IoError(io::Error::from(kind)),
             }
@@ -100,4 +115,31 @@ pub fn path_unaware_udp_socket(
         },
         handlers,
     )
+}
+
+/// Builds the real path-aware UDP socket over a simulated underlay, wired to the given path
+/// manager the way `ScionStack::bind_with_config` wires it: the manager receives the SCMP errors
+/// the socket's receive loop sees and the send errors the socket reports.
+pub fn udp_socket<P>(
+    underlay: Arc<dyn VerifUnderlay>,
+    local_addr: ScionSocketIpAddr,
+    pather: Arc<P>,
+    connect_timeout: Duration,
+) -> UdpScionSocket<P>
+where
+    P: PathManager + ScmpErrorReceiver + SendErrorReceiver + 'static,
+{
+    let scmp_error_receivers: Subscribers<dyn ScmpErrorReceiver> = Subscribers::new();
+    let send_error_receivers: Subscribers<dyn SendErrorReceiver> = Subscribers::new();
+    scmp_error_receivers.register(pather.clone());
+    send_error_receivers.register(pather.clone());
+    let socket = PathUnawareUdpScionSocket::new(
+        BoundUnderlaySocket {
+            socket: Box::new(Adapter(underlay)),
+            local_addr,
+            snap_data_plane: None,
+        },
+        vec![Box::new(ScmpErrorHandler::new(scmp_error_receivers))],
+    );
+    UdpScionSocket::new(socket, pather, connect_timeout, send_error_receivers)
 }
